@@ -67,6 +67,11 @@ func (r *Result) Rule(id, text string) {
 }
 
 func (r *Result) add(rule, construct, pos string, st Status, nontrivial bool, detail string) {
+	for _, o := range r.Obls {
+		if o.Rule == rule && o.Construct == construct && o.Status == st && o.Config == r.Config {
+			return // same obligation reached through a second syntactic route
+		}
+	}
 	if d, ok := r.ruleIdx[rule]; ok {
 		d.N++
 	} else {
